@@ -11,11 +11,16 @@ from props import common
 
 ID = "C06"
 LEVEL = "exploration"
-SIDECARS = []
-TARGETS = []
+SIDECARS = ["contracts.intervals"]
+TARGETS = ["TransEquation.make_eager_inputs", "TransEquation.make_interval"]
 TECHNIQUE = ("bounded run-time contract on the real entry point: ast.parse + flow-sensitive definite-assignment analysis "
-             "of the emitted text against the user-supplied name set derived from the specification alone")
+             "of the emitted text against the user-supplied name set derived from the specification alone; def/use summaries "
+             "(SMT) of the two translator functions that bind and read the interval variables of a projected rank")
 EXPLANATION = (
+    "Proved (SMT, contracts/intervals.py): Equation.make_eager_inputs(rank1, ...) binds inputs_<rank1>; "
+    "Equation.make_interval(rank0) binds <rank0>_start and <rank0>_end on both branches of both conditionals and reads "
+    "only <root>1_pos, <root>1, inputs_<root>1 (the very name the former binds) and the extent <ROOT>. These are def/use "
+    "summaries of two translators; the rest is bounded. "
     "Closedness of the whole emitted text depends on the agreement between the flow-graph builder's simulation of "
     "tensor state and the translators' re-simulation over the hoisted node order: not brought under contract. The "
     "contract on str(HiFiber(...)) is therefore checked at run time over an enumerated family (integration "
